@@ -2,18 +2,27 @@
 // block.Manager against the timer automaton of lean/Model/Lazy.lean, plus monitors for the clauses
 // of C17 that do not use the model.
 //
-// op line   run mode=lazy|normal B=<ms> I=<ms> span=<ms> edge=<ms> dd=<ms> tol=<ms> script=<k:d:o1+o2,…|->
-// the k-th production lasts d ms and NotifyNewTransactions() is called o ms after its start
-// (inside the production when o < d).  Observation line = the model's admissible runs (all select
-// resolutions), computed here by the Go port in model.go and by the Lean driver: the diff ties the
-// port to the Lean model; the real loop's measured productions must match one admissible run
-// within `tol` (reported through the monitor interface when they do not, after two re-runs).
+// op line   run mode=lazy|normal B=<ms> I=<ms> span=<ms> dd=<ms> tol=<ms> jit=<ms> upto=<M> script=<k:d:o1+o2:p1+p2,…|->
+// the k-th production lasts d ms; NotifyNewTransactions() is called o ms after its start (inside the
+// production when o < d) and a probe (a pure time marker) is recorded p ms after its start — both
+// from goroutines of their own, as the reaper does.
+//
+// Observation line: `outs=` the ORDER of the first `upto` events the REAL loop went through
+// (production starts with the select case that caused them, production ends, notifications, probes).
+// It is compared with the Lean driver's set of admissible outcomes (all select resolutions, all
+// interleavings of one instant, delivery of every notification/probe anywhere within `jit` ms of its
+// scripted time): when the set has one element the line is the real loop's own order and must be
+// the same text as the driver's; when it has several (near-tie scenario) the real order must be a
+// member.  `runs=` are the production start times of the admissible runs (model only; the Go port of
+// model.go is thereby diffed against Lean); the measured production times are matched against them
+// within a tolerance by the timing monitor.
 package c17
 
 import (
 	"fmt"
 	"io"
 	"math"
+	"os"
 	"sort"
 	"strings"
 	"sync"
@@ -25,74 +34,36 @@ func init() { hx.Register("C17", hx.Stream{Gen: Gen, Run: Run}) }
 
 const (
 	sigKnownIdleShorter = "C17/rate/idle-interval-shorter-than-block-interval"
-	rateTol             = 10.0 // ms: recorder timestamp vs the loop's own `start := time.Now()`
-	parallel            = 8
-	attempts            = 3
+	sigKnownLongFlight  = "C17/notify/later-than-one-block-interval/production-in-flight-longer-than-block-interval"
+	sigLateNotify       = "C17/notify/later-than-one-block-interval/other"
+	sigOrder            = "C17/model/real-order-outside-admissible-outcomes"
+	sigTiming           = "C17/model/real-loop-outside-admissible-runs"
+
+	rateTol  = 10.0 // ms: recorder timestamp vs the loop's own `start := time.Now()`
+	parallel = 8
+	jit0     = 30       // ms: the admissible outcomes are computed for deliveries within ±jit0 of the scripted instant …
+	sep      = 2 * jit0 // … and a scenario is only used when ±sep gives the same set
+	noiseCap = 20.0     // ms: an attempt with more scheduler noise than this is re-run instead of counted
+
+	cleanNeeded = 3 // attempts with noise ≤ noiseCap that decide a signature …
+	showsNeeded = 2 // … which is reported when this many of them show it
+	maxAttempts = 5
 )
 
 // ---------------------------------------------------------------- generator
 
 func (sc *script) line() string {
-	return fmt.Sprintf("run mode=%s B=%d I=%d span=%d edge=%d dd=%d tol=%d script=%s",
-		sc.mode, sc.B, sc.I, sc.span, sc.edge, sc.dd, sc.tol, showScript(sc.prods))
+	return fmt.Sprintf("run mode=%s B=%d I=%d span=%d dd=%d tol=%d jit=%d upto=%d script=%s",
+		sc.mode, sc.B, sc.I, sc.span, sc.dd, sc.tol, sc.jit, sc.upto, showScript(sc.prods))
 }
 
 func mk(mode string, b, i, span int, prods ...pspec) *script {
-	return &script{mode: mode, B: b, I: i, span: span, edge: 60, dd: 10, tol: 30, prods: prods}
+	return &script{mode: mode, B: b, I: i, span: span, dd: 10, tol: 30, prods: prods}
 }
 
-func shifted(sc *script, v int) *script {
-	c := *sc
-	c.prods = nil
-	for _, p := range sc.prods {
-		q := pspec{idx: p.idx, dur: p.dur}
-		for _, o := range p.offs {
-			if o >= p.dur {
-				o += v
-				if o < p.dur+1 {
-					o = p.dur + 1
-				}
-			}
-			q.offs = append(q.offs, o)
-		}
-		c.prods = append(c.prods, q)
-	}
-	return &c
-}
+func pr(k, d int, offs ...int) pspec { return pspec{idx: k, dur: d, offs: offs} }
 
-// robust: one admissible run, and moving every out-of-production notification by ±m does not change
-// the number of productions nor move any of them by more than m (so scheduler jitter cannot flip
-// the outcome of the real run).
-func robust(sc *script, m int) bool {
-	c := cfg{block: sc.B, idle: sc.I, lazy: sc.mode == "lazy"}
-	h := sc.span + sc.edge
-	base := runsOf(c, sc, h)
-	if len(base) != 1 {
-		return false
-	}
-	for _, p := range sc.prods {
-		if abs(p.dur-sc.B) < m || (sc.mode == "lazy" && abs(p.dur-sc.I) < m) {
-			return false
-		}
-	}
-	for _, p := range base[0] { // nothing right at the edge of the observation window
-		if abs(p-sc.span) < sc.edge/2 {
-			return false
-		}
-	}
-	for _, v := range []int{-m, -m / 2, m / 2, m} {
-		rs := runsOf(c, shifted(sc, v), h)
-		if len(rs) != 1 || len(rs[0]) != len(base[0]) {
-			return false
-		}
-		for i := range rs[0] {
-			if abs(rs[0][i]-base[0][i]) > m {
-				return false
-			}
-		}
-	}
-	return true
-}
+func withDD(sc *script, dd int) *script { sc.dd = dd; return sc }
 
 func abs(x int) int {
 	if x < 0 {
@@ -101,85 +72,278 @@ func abs(x int) int {
 	return x
 }
 
+func (sc *script) addProbe(k, o int) {
+	if p := sc.spec(k); p != nil {
+		p.probes = append(p.probes, o)
+		sort.Ints(p.probes)
+		return
+	}
+	sc.prods = append(sc.prods, pspec{idx: k, dur: sc.dd, probes: []int{o}})
+	sort.SliceStable(sc.prods, func(a, b int) bool { return sc.prods[a].idx < sc.prods[b].idx })
+}
+
+func equalStrs(a, b []string) bool {
+	if len(a) != len(b) {
+		return false
+	}
+	for i := range a {
+		if a[i] != b[i] {
+			return false
+		}
+	}
+	return true
+}
+
+// finalize completes a scenario (durations and notifications given): probes on both sides of every
+// production start (they put the time of the production into the order of events), the number of
+// events to compare, and the check that the scenario is usable — the set of admissible outcomes does
+// not change when every delivery may move by ±sep instead of ±jit0 (nothing else is within reach of
+// scheduler jitter; second chance: ±sep and ±(sep+jit0)) and no near-tie of the two timers with a
+// notification pending.  Scenarios with ties are NOT dropped: a tie simply means that the set has more
+// than one element.
+func finalize(sc *script) bool {
+	sc.frontierCap = 300
+	defer func() { sc.frontierCap = 0 }()
+	sc.jit, sc.upto, sc.guard = 0, 1<<20, 0
+	base := finals(sc.cfg(), sc, sc.span)
+	if len(base) == 0 || len(base) > 64 {
+		return false
+	}
+	type pt struct{ k, o int }
+	var acc []pt
+	probeOK := func(k, o int) bool {
+		for _, x := range base {
+			if k >= len(x.starts) {
+				continue
+			}
+			t := x.starts[k] + o
+			if t > sc.span-150 {
+				return false
+			}
+			for i, tau := range x.ttimes {
+				need := sep + 20 // a production start or end: only the probe moves
+				if c := x.toks[i][0]; c == 'n' || c == 'p' {
+					need = 2*sep + 10 // both move
+				}
+				if abs(t-tau) < need {
+					return false
+				}
+			}
+			for _, a := range acc {
+				if a.k < len(x.starts) && abs(t-(x.starts[a.k]+a.o)) < 2*sep+10 {
+					return false
+				}
+			}
+		}
+		return true
+	}
+	ref := base[0]
+	for k := 0; k+1 < len(ref.starts); k++ {
+		g := ref.starts[k+1] - ref.starts[k]
+		for _, o := range []int{g - 90, g + 90} {
+			if o >= sep+20 && probeOK(k, o) {
+				acc = append(acc, pt{k, o})
+			}
+		}
+	}
+	for _, a := range acc {
+		sc.addProbe(a.k, a.o)
+	}
+	withP := finals(sc.cfg(), sc, sc.span)
+	if len(withP) == 0 {
+		return false
+	}
+	slack := 250 + sc.span/10
+	m := -1
+	for _, x := range withP {
+		n := 0
+		for _, t := range x.ttimes {
+			if t <= sc.span-slack {
+				n++
+			}
+		}
+		if m < 0 || n < m {
+			m = n
+		}
+	}
+	if m < 4 {
+		return false
+	}
+	sc.upto = m
+	// usable with deliveries anywhere within ±jit0 if ±sep gives the same set; a scenario with something
+	// between jit0 and sep away from a threshold gets a second chance with ±sep / ±(sep+jit0)
+	for _, jj := range [][2]int{{jit0, sep}, {sep, sep + jit0}} {
+		sc.jit, sc.guard = jj[0], jj[1]
+		p1 := predict(sc)
+		sc.jit = jj[1]
+		p2 := predict(sc)
+		sc.jit, sc.guard = jj[0], 0
+		if os.Getenv("C17_DEBUG") != "" {
+			fmt.Fprintf(os.Stderr, "finalize %s\n  flags=%d/%d\n  outs(%d)=%v\n  outs(%d)=%v\n", sc.line(), p1.flags, p2.flags, jj[0], p1.outs, jj[1], p2.outs)
+		}
+		if p1.flags == 0 && p2.flags == 0 && len(p1.outs) > 0 && len(p1.outs) <= 40 && equalStrs(p1.outs, p2.outs) {
+			return true
+		}
+	}
+	return false
+}
+
 func fixedScenarios() []*script {
 	return []*script{
-		mk("lazy", 100, 500, 2300),                                                        // idle chain
-		mk("lazy", 100, 500, 2000, pspec{0, 70, []int{30}}),                                // notification inside a lazy-timer production
-		mk("lazy", 100, 500, 2000, pspec{0, 10, []int{150}}, pspec{1, 70, []int{30}}),      // … inside a block-timer production
-		mk("lazy", 200, 80, 1500),                                                         // idle < block (known finding)
-		mk("lazy", 150, 60, 1400, pspec{1, 10, []int{40}}),                                 // idle < block with a notification
-		mk("normal", 100, 500, 1800, pspec{0, 10, []int{30, 130}}, pspec{2, 10, []int{50}}), // normal mode ignores notifications
-		mk("normal", 100, 500, 1800, pspec{1, 160, []int{20}}),                             // normal mode, production longer than the interval
-		mk("lazy", 100, 500, 2000, pspec{0, 10, []int{100}}),                               // notification exactly on a block tick (two admissible runs)
-		mk("lazy", 100, 500, 2000, pspec{0, 10, []int{350}}),                               // block timer keeps ticking without txs
-		mk("lazy", 100, 500, 2200, pspec{0, 10, []int{150}}, pspec{1, 160, []int{50}}),     // production longer than the block interval
-		mk("lazy", 100, 250, 2000, pspec{0, 300, []int{100}}),                              // production longer than both intervals
-		mk("lazy", 100, 100, 1500, pspec{3, 10, []int{45}}),                                // idle = block
-		mk("lazy", 100, 500, 2000, pspec{0, 10, []int{140, 145, 150, 155}}),                // burst: one slot
-		mk("lazy", 100, 500, 2200, pspec{0, 10, []int{150}}, pspec{1, 10, []int{140}}, pspec{2, 70, []int{20, 50}}),
-		withDD(mk("lazy", 100, 400, 2100), 130),  // idle chain whose productions all outlast the block interval
-		withDD(mk("normal", 100, 500, 1700), 60), // normal mode: elapsed production time is deducted from the interval
-		withDD(mk("lazy", 80, 300, 2000, pspec{1, 60, []int{100}}, pspec{3, 60, []int{20}}), 60),
+		mk("lazy", 200, 1000, 4700),                                        // idle chain
+		mk("lazy", 200, 1000, 3400, pr(0, 140, 40)),                        // notification inside a lazy-timer production
+		mk("lazy", 200, 1000, 3400, pr(0, 10, 300), pr(1, 140, 40)),        // … inside a block-timer production
+		mk("lazy", 400, 160, 1900),                                         // idle < block (known finding: the idle timer alone)
+		mk("lazy", 400, 160, 1900, pr(1, 10, 80)),                          // idle < block with a notification
+		mk("normal", 200, 1000, 2600, pr(0, 10, 100, 300), pr(2, 10, 100)), // normal mode ignores notifications
+		mk("normal", 200, 1000, 2600, pr(1, 330, 40)),                      // normal mode, production longer than the interval
+		mk("lazy", 200, 1000, 3400, pr(0, 10, 200)),                        // TIE: notification exactly on a block tick
+		mk("lazy", 200, 1000, 3400, pr(0, 10, 700)),                        // block timer keeps ticking without txs
+		mk("lazy", 200, 1000, 3600, pr(0, 10, 300), pr(1, 400, 60)),        // in-flight production longer than the block interval (known finding by the letter)
+		mk("lazy", 200, 500, 3000, pr(0, 600, 200)),                        // TIE: production longer than both intervals, both timers re-armed to 1 ms
+		mk("lazy", 200, 200, 2200, pr(3, 10, 100)),                         // idle = block: the two timers tie on every tick
+		mk("lazy", 200, 1000, 3400, pr(0, 10, 285, 300, 315)),              // burst on the one-slot channel
+		mk("lazy", 200, 1000, 3800, pr(0, 10, 300), pr(1, 10, 300), pr(2, 140, 40, 70)),
+		withDD(mk("lazy", 200, 800, 4000), 270),    // idle chain whose productions all outlast the block interval
+		withDD(mk("normal", 200, 1000, 2400), 120), // normal mode: elapsed production time is deducted from the interval
+		withDD(mk("lazy", 200, 700, 3600, pr(1, 120, 300), pr(3, 120, 40)), 120),
+		mk("lazy", 200, 1000, 3600, pr(0, 10, 900)),                 // TIE: lazy and block timer expire together with a notification pending
+		mk("lazy", 200, 1000, 3400, pr(0, 100, 100)),                // TIE: notification exactly at the end of a production
+		mk("lazy", 200, 1000, 3400, pr(0, 10, 195)),                 // NEAR-TIE: notification 5 ms before a block tick
+		mk("lazy", 240, 840, 3600, pr(0, 10, 600), pr(1, 150, 143)), // NEAR-TIE: notification 7 ms before the end of a production
 	}
 }
 
-func withDD(sc *script, dd int) *script { sc.dd = dd; return sc }
+var ratios = [][2]int{{200, 1000}, {200, 500}, {200, 200}, {240, 840}, {300, 750}, {200, 600}, {400, 160}, {450, 180}, {220, 330}, {200, 800}}
 
-var ratios = [][2]int{{100, 500}, {100, 250}, {100, 100}, {80, 400}, {120, 300}, {100, 300}, {200, 80}, {150, 60}, {90, 450}, {110, 165}}
-
-func randomScenario(r *hx.Rng) *script {
-	for try := 0; try < 40; try++ {
-		bi := ratios[r.Intn(len(ratios))]
-		mode := "lazy"
-		if r.Chance(20) {
-			mode = "normal"
+func randomBase(r *hx.Rng) *script {
+	bi := ratios[r.Intn(len(ratios))]
+	mode := "lazy"
+	if r.Chance(20) {
+		mode = "normal"
+	}
+	span := 3*bi[1] + 900
+	if span < 2400 {
+		span = 2400
+	}
+	if span > 4400 {
+		span = 4400
+	}
+	sc := mk(mode, bi[0], bi[1], span+100*r.Intn(4))
+	for k := 0; k < 6; k++ {
+		if !r.Chance(45) {
+			continue
 		}
-		sc := mk(mode, bi[0], bi[1], 1800+100*r.Intn(7))
-		for k := 0; k < 6; k++ {
-			if !r.Chance(45) {
-				continue
-			}
-			var d int
-			switch r.Intn(5) {
-			case 0, 1:
+		var d int
+		switch r.Intn(5) {
+		case 0, 1:
+			d = 5 + r.Intn(20)
+		case 2:
+			d = sc.B * (55 + r.Intn(10)) / 100
+		case 3:
+			d = sc.B * (150 + r.Intn(30)) / 100
+		default:
+			d = sc.I + 80 + r.Intn(80)
+			if d > 700 {
 				d = 5 + r.Intn(20)
-			case 2:
-				d = sc.B * (55 + r.Intn(10)) / 100
-			case 3:
-				d = sc.B * (150 + r.Intn(30)) / 100
-			default:
-				d = sc.I + 40 + r.Intn(40)
-				if d > 400 {
-					d = 5 + r.Intn(20)
-				}
 			}
-			p := pspec{idx: k, dur: d}
-			for j := r.Intn(3); j > 0; j-- {
-				if d >= 40 && r.Bool() {
-					p.offs = append(p.offs, 10+r.Intn(d-20))
-				} else {
-					p.offs = append(p.offs, d+20+r.Intn(sc.B*7/2))
-				}
-			}
-			sort.Ints(p.offs)
-			sc.prods = append(sc.prods, p)
 		}
-		if robust(sc, 30) {
+		p := pspec{idx: k, dur: d}
+		for j := r.Intn(3); j > 0; j-- {
+			if d >= 150 && r.Bool() {
+				p.offs = append(p.offs, 10+r.Intn(d-80)) // during the production
+			} else {
+				// while the loop is waiting: somewhere in the middle between two expiries of the timer
+				// that ticks (a notification next to a tick is what snapToTie makes)
+				iv, first := sc.B, 0
+				if mode == "lazy" && sc.I < iv {
+					iv = sc.I
+				}
+				if d >= iv {
+					first = d + 1
+				}
+				o := first + r.Intn(4)*iv + 75 + r.Intn(iv-149)
+				if o < d+70 {
+					o += iv
+				}
+				p.offs = append(p.offs, o)
+			}
+		}
+		sort.Ints(p.offs)
+		sc.prods = append(sc.prods, p)
+	}
+	return sc
+}
+
+// snapToTie moves one waiting notification onto (or a few ms next to) an instant at which a timer
+// case runs or a production ends.
+func snapToTie(r *hx.Rng, sc *script) {
+	sc.jit, sc.upto, sc.guard, sc.frontierCap = 0, 1<<20, 0, 300
+	base := finals(sc.cfg(), sc, sc.span)
+	sc.frontierCap = 0
+	if len(base) == 0 {
+		return
+	}
+	x := base[0]
+	var cands [][2]int // (index in prods, index in offs)
+	for i, p := range sc.prods {
+		for j, o := range p.offs {
+			if o >= p.dur && p.idx < len(x.starts) {
+				cands = append(cands, [2]int{i, j})
+			}
+		}
+	}
+	if len(cands) == 0 {
+		return
+	}
+	c := cands[r.Intn(len(cands))]
+	p := &sc.prods[c[0]]
+	at := x.starts[p.idx] + p.offs[c[1]]
+	best := -1
+	for _, t := range x.thr {
+		if t > x.starts[p.idx]+p.dur && (best < 0 || abs(t-at) < abs(best-at)) {
+			best = t
+		}
+	}
+	if best < 0 {
+		return
+	}
+	o := best - x.starts[p.idx] + []int{0, 0, -4, 4, -9, 9}[r.Intn(6)]
+	if o > p.dur {
+		p.offs[c[1]] = o
+		sort.Ints(p.offs)
+	}
+}
+
+func randomScenario(r *hx.Rng, tie bool) *script {
+	for try := 0; try < 60; try++ {
+		sc := randomBase(r)
+		if tie {
+			snapToTie(r, sc)
+		}
+		if finalize(sc) {
 			return sc
 		}
 	}
-	return mk("lazy", 100, 500, 2000, pspec{0, 10, []int{150}})
+	sc := mk("lazy", 200, 1000, 3400, pr(0, 10, 300))
+	finalize(sc)
+	return sc
 }
 
 func Gen(r *hx.Rng, tier string, w io.Writer) {
-	n := 10
+	n := 8
 	if tier == "thorough" {
-		n = 50
+		n = 40
 	}
 	var scs []*script
-	scs = append(scs, fixedScenarios()...)
+	for _, sc := range fixedScenarios() {
+		if !finalize(sc) {
+			panic("c17: fixed scenario is not stable under jitter: " + sc.line())
+		}
+		scs = append(scs, sc)
+	}
 	for i := 0; i < n; i++ {
-		scs = append(scs, randomScenario(r))
+		scs = append(scs, randomScenario(r, i%3 == 2))
 	}
 	for _, sc := range scs {
 		fmt.Fprintln(w, "reset")
@@ -187,9 +351,10 @@ func Gen(r *hx.Rng, tier string, w io.Writer) {
 	}
 	// malformed ops (both sides must answer bad-op)
 	fmt.Fprintln(w, "reset")
-	fmt.Fprintln(w, "run mode=eager B=100 I=500 span=1000 edge=60 dd=10 tol=30 script=-")
-	fmt.Fprintln(w, "run mode=lazy B=0 I=500 span=1000 edge=60 dd=10 tol=30 script=-")
-	fmt.Fprintln(w, "run mode=lazy B=100 I=500 span=1000 edge=60 dd=10 tol=30 script=0:x:1")
+	fmt.Fprintln(w, "run mode=eager B=200 I=1000 span=1000 dd=10 tol=30 jit=30 upto=5 script=-")
+	fmt.Fprintln(w, "run mode=lazy B=0 I=1000 span=1000 dd=10 tol=30 jit=30 upto=5 script=-")
+	fmt.Fprintln(w, "run mode=lazy B=200 I=1000 span=1000 dd=10 tol=30 jit=30 upto=5 script=0:x:1")
+	fmt.Fprintln(w, "run mode=lazy B=200 I=1000 span=1000 dd=10 tol=30 jit=30 script=-")
 	fmt.Fprintln(w, "produce now")
 }
 
@@ -202,9 +367,10 @@ func parseRun(o hx.Op) (*script, bool) {
 	sc.B, _ = parseNat(o.Str("B"))
 	sc.I, _ = parseNat(o.Str("I"))
 	sc.span, _ = parseNat(o.Str("span"))
-	sc.edge, _ = parseNat(o.Str("edge"))
 	sc.dd, _ = parseNat(o.Str("dd"))
 	sc.tol, _ = parseNat(o.Str("tol"))
+	sc.jit, _ = parseNat(o.Str("jit"))
+	sc.upto, _ = parseNat(o.Str("upto"))
 	if sc.tol == 0 {
 		sc.tol = 30
 	}
@@ -213,7 +379,7 @@ func parseRun(o hx.Op) (*script, bool) {
 		return nil, false
 	}
 	sc.prods = ps
-	if (sc.mode != "lazy" && sc.mode != "normal") || sc.B == 0 || sc.I == 0 || sc.span == 0 || sc.span+sc.edge > 30000 {
+	if (sc.mode != "lazy" && sc.mode != "normal") || sc.B == 0 || sc.I == 0 || sc.span == 0 || sc.span > 30000 || sc.upto == 0 || sc.jit > 500 {
 		return nil, false
 	}
 	return sc, true
@@ -227,8 +393,8 @@ func fmtF(l []float64) string {
 	return strings.Join(parts, ",")
 }
 
-// matchRun: does the measured run agree with the admissible run r (gaps within tol, count within the edge)?
-func matchRun(sc *script, tol float64, starts []float64, stopMs float64, r []int) (bool, string) {
+// matchRun: does the measured run agree with the admissible run r (gaps within tol, nothing overdue)?
+func matchRun(tol float64, starts []float64, stopMs float64, r []int) (bool, string) {
 	n := len(starts)
 	if n > len(r) {
 		return false, fmt.Sprintf("%d productions, the model admits at most %d", n, len(r))
@@ -251,25 +417,36 @@ func matchRun(sc *script, tol float64, starts []float64, stopMs float64, r []int
 	}
 	// the run was cancelled at stopMs: was the model's next production overdue by then?  (compared
 	// relative to the last measured production, so that accumulated timer lateness does not count)
-	if n < len(r) && r[n] < sc.span {
+	if n < len(r) {
 		waited := stopMs - starts[n-1]
 		gr := float64(r[n] - r[n-1])
-		if waited > gr+tol+float64(sc.edge) {
+		if waited > gr+tol+sep {
 			return false, fmt.Sprintf("%d productions; %.0f ms after the last one no further production had started, the model says %.0f ms", n, waited, gr)
 		}
 	}
 	return true, ""
 }
 
-func evaluate(sc *script, ms measurement, runs [][]int) []finding {
+func contains(l []string, s string) bool {
+	for _, x := range l {
+		if x == s {
+			return true
+		}
+	}
+	return false
+}
+
+func evaluate(sc *script, ms measurement, pred prediction) []finding {
 	var out []finding
+	lazy := sc.mode == "lazy"
+	real := ms.outcome(lazy, sc.upto)
 	add := func(sig, what string) {
 		for _, f := range out {
 			if f.sig == sig {
 				return
 			}
 		}
-		out = append(out, finding{sig, what + " [" + sc.line() + "; measured starts(ms)=" + fmtF(ms.starts) + fmt.Sprintf("; scheduler noise %.0f ms", ms.noise) + "]"})
+		out = append(out, finding{sig, what + " [" + sc.line() + "; measured starts(ms)=" + fmtF(ms.starts) + "; order=" + real + fmt.Sprintf("; scheduler noise %.0f ms", ms.noise) + "]"})
 	}
 	if ms.panicked != "" {
 		add("C17/panic/aggregation-loop", "AggregationLoop panicked: "+ms.panicked)
@@ -279,10 +456,10 @@ func evaluate(sc *script, ms measurement, runs [][]int) []finding {
 		add("C17/loop/returned-error", "AggregationLoop reported "+ms.loopErr)
 	}
 	// tolerances widen with the scheduler noise measured during this very run (a loaded machine wakes
-	// timers late; it never makes the loop early by more than the lateness of the preceding event)
+	// timers late; it never makes the loop early by more than the lateness of the preceding event);
+	// an attempt whose noise exceeds noiseCap is not counted (see Run)
 	B, I, tol := float64(sc.B), float64(sc.I), float64(sc.tol)+2*ms.noise
 	rateTol := rateTol + 2*ms.noise
-	lazy := sc.mode == "lazy"
 	// productions started before the cancellation
 	var starts, ends []float64
 	for i, s := range ms.starts {
@@ -293,10 +470,18 @@ func evaluate(sc *script, ms measurement, runs [][]int) []finding {
 	}
 	n := len(starts)
 
-	// (0) correspondence with the model: some admissible run matches
+	// (0a) order of events: one of the model's admissible outcomes
+	if !contains(pred.outs, real) {
+		shown := pred.outs
+		if len(shown) > 3 {
+			shown = shown[:3]
+		}
+		add(sigOrder, fmt.Sprintf("the order of events of the real loop is none of the model's %d admissible outcomes (%s)", len(pred.outs), strings.Join(shown, " | ")))
+	}
+	// (0b) times of the productions: some admissible run matches
 	okAny, why := false, ""
-	for i, r := range runs {
-		ok, w := matchRun(sc, tol, starts, ms.stopMs, r)
+	for i, r := range pred.runs {
+		ok, w := matchRun(tol, starts, ms.stopMs, r)
 		if ok {
 			okAny = true
 			break
@@ -307,16 +492,17 @@ func evaluate(sc *script, ms measurement, runs [][]int) []finding {
 	}
 	if !okAny {
 		var rs []string
-		for i, r := range runs {
+		for i, r := range pred.runs {
 			if i < 3 {
 				rs = append(rs, natList(r))
 			}
 		}
-		add("C17/model/real-loop-outside-admissible-runs", "the real loop's productions match none of the model's admissible runs ("+why+"); model runs: "+strings.Join(rs, " | "))
+		add(sigTiming, "the real loop's productions match none of the model's admissible runs ("+why+"); model runs: "+strings.Join(rs, " | "))
 	}
 
 	// (1) no lost wake-up (lazy mode): every notification is followed by a production start within
-	//     one block interval after max(notification, end of the production in flight)
+	//     one block interval after max(notification, end of the production in flight); by the letter of
+	//     the property: within one block interval after the notification
 	if lazy {
 		for _, nf := range ms.notifs {
 			base, after, inflight := nf.at, -1, false
@@ -333,17 +519,25 @@ func evaluate(sc *script, ms measurement, runs [][]int) []finding {
 			if skip || deadline > ms.stopMs-5 {
 				continue
 			}
-			served := false
-			for k := 0; k < n; k++ {
-				if k > after && starts[k] >= nf.at && starts[k] <= deadline {
-					served = true
+			servedBy := func(dl float64) bool {
+				for k := 0; k < n; k++ {
+					if k > after && starts[k] >= nf.at && starts[k] <= dl {
+						return true
+					}
 				}
+				return false
 			}
-			if !served {
-				if inflight {
-					add("C17/lost-wakeup/notification-during-production", fmt.Sprintf("NotifyNewTransactions at %.0f ms, during production %d (ended %.0f ms): no further production started by %.0f ms", nf.at, after, ends[after], deadline))
+			switch {
+			case !servedBy(deadline) && inflight:
+				add("C17/lost-wakeup/notification-during-production", fmt.Sprintf("NotifyNewTransactions at %.0f ms, during production %d (ended %.0f ms): no further production started by %.0f ms", nf.at, after, ends[after], deadline))
+			case !servedBy(deadline):
+				add("C17/lost-wakeup/notification-while-waiting", fmt.Sprintf("NotifyNewTransactions at %.0f ms: no production started by %.0f ms", nf.at, deadline))
+			case inflight && !servedBy(nf.at+B+tol):
+				// the further block came, but later than one block interval after the call
+				if dur := ends[after] - starts[after]; dur >= B {
+					add(sigKnownLongFlight, fmt.Sprintf("NotifyNewTransactions at %.0f ms, during production %d which lasted %.0f ms (block interval %d ms): the further block started only after its end, later than %.0f ms", nf.at, after, dur, sc.B, nf.at+B+tol))
 				} else {
-					add("C17/lost-wakeup/notification-while-waiting", fmt.Sprintf("NotifyNewTransactions at %.0f ms: no production started by %.0f ms", nf.at, deadline))
+					add(sigLateNotify, fmt.Sprintf("NotifyNewTransactions at %.0f ms, during production %d which lasted %.0f ms (shorter than the block interval %d ms): no production started by %.0f ms", nf.at, after, dur, sc.B, nf.at+B+tol))
 				}
 			}
 		}
@@ -360,8 +554,13 @@ func evaluate(sc *script, ms measurement, runs [][]int) []finding {
 		case gap < math.Min(B, I)-rateTol:
 			add("C17/rate/faster-than-block-interval", fmt.Sprintf("productions %d and %d are %.0f ms apart, block interval %d ms, idle interval %d ms", i-1, i, gap, sc.B, sc.I))
 		case gap < B-rateTol:
-			// only reachable when idle < block: the lazy timer alone is re-armed every idle interval
-			add(sigKnownIdleShorter, fmt.Sprintf("productions %d and %d are %.0f ms apart although the block interval is %d ms (idle interval %d ms)", i-1, i, gap, sc.B, sc.I))
+			// only reachable when idle < block.  The known finding is the lazy timer alone being re-armed every
+			// idle interval: it applies when the too-early production is the one the lazy-timer case started.
+			if cause := ms.causeOf(true, i); cause == "L" {
+				add(sigKnownIdleShorter, fmt.Sprintf("production %d, started by the lazy timer, is %.0f ms after production %d although the block interval is %d ms (idle interval %d ms)", i, gap, i-1, sc.B, sc.I))
+			} else {
+				add("C17/rate/faster-than-block-interval", fmt.Sprintf("production %d (started from select case %q) is %.0f ms after production %d, block interval %d ms, idle interval %d ms", i, cause, gap, i-1, sc.B, sc.I))
+			}
 		}
 	}
 
@@ -396,46 +595,132 @@ func evaluate(sc *script, ms measurement, runs [][]int) []finding {
 
 // ---------------------------------------------------------------- run
 
+type att struct {
+	fs      []finding
+	outcome string
+	noise   float64
+	clean   bool // noise ≤ noiseCap: the attempt counts
+}
+
+func (a att) shows(sig string) *finding {
+	for i := range a.fs {
+		if a.fs[i].sig == sig {
+			return &a.fs[i]
+		}
+	}
+	return nil
+}
+
 type job struct {
 	scenario int
 	ops      []string
 	sc       *script
-	runs     [][]int
-	findings []finding
-	noise    float64
+	pred     prediction
+	atts     []att
 }
 
-func attempt(j *job) []finding {
+func attempt(j *job) att {
 	ms, err := runReal(j.sc)
 	if err != nil {
-		return []finding{{"C17/setup/new-manager-failed", err.Error()}}
+		return att{fs: []finding{{"C17/setup/new-manager-failed", err.Error()}}, clean: true}
 	}
-	if ms.noise > j.noise {
-		j.noise = ms.noise
+	if ms.late > ms.noise {
+		ms.noise = ms.late
 	}
-	return evaluate(j.sc, ms, j.runs)
+	return att{fs: evaluate(j.sc, ms, j.pred), outcome: ms.outcome(j.sc.mode == "lazy", j.sc.upto), noise: ms.noise, clean: ms.noise <= noiseCap}
 }
 
-func needsRetry(fs []finding) bool {
-	for _, f := range fs {
-		if f.sig != sigKnownIdleShorter { // deterministic on idle < block: no point in re-running
+// deterministic by-the-letter findings of the unchanged tree: no point in re-running
+func knownSig(sig string) bool { return sig == sigKnownIdleShorter || sig == sigKnownLongFlight }
+
+// sigs: every signature some attempt showed (except the deterministic known ones), in order of appearance
+func (j *job) sigs() []string {
+	var out []string
+	for _, a := range j.atts {
+		for _, f := range a.fs {
+			if !knownSig(f.sig) && !contains(out, f.sig) {
+				out = append(out, f.sig)
+			}
+		}
+	}
+	return out
+}
+
+// verdict on one signature: (reported, decided).  Reported when showsNeeded of the counted attempts
+// show it; when the machine is so loaded that fewer than showsNeeded attempts could be counted at
+// all, when every one of the maxAttempts attempts shows it.
+func (j *job) verdict(sig string) (bool, bool) {
+	total, clean, cleanShows, allShow := len(j.atts), 0, 0, true
+	for _, a := range j.atts {
+		s := a.shows(sig) != nil
+		if a.clean {
+			clean++
+			if s {
+				cleanShows++
+			}
+		}
+		if !s {
+			allShow = false
+		}
+	}
+	if cleanShows >= showsNeeded {
+		return true, true
+	}
+	left := maxAttempts - total
+	if cleanNeeded-clean < left {
+		left = cleanNeeded - clean
+	}
+	if left <= 0 {
+		return clean < showsNeeded && total >= maxAttempts && allShow, true
+	}
+	if allShow {
+		return false, false // may still be reported by either rule
+	}
+	if clean >= 1 && cleanShows == 0 {
+		return false, true // only ever seen in attempts that do not count
+	}
+	return false, cleanShows+left < showsNeeded
+}
+
+func (j *job) needsMore() bool {
+	for _, sig := range j.sigs() {
+		if _, decided := j.verdict(sig); !decided {
 			return true
 		}
 	}
 	return false
 }
 
-func intersect(a, b []finding) []finding {
-	var out []finding
-	for _, x := range a {
-		for _, y := range b {
-			if x.sig == y.sig {
-				out = append(out, x)
-				break
+// observation: the order of events of the real loop that goes into the diffed line — of the attempt
+// that shows the reported order deviation, otherwise of an attempt whose order was admissible.
+func (j *job) observation() string {
+	if rep, _ := j.verdict(sigOrder); rep {
+		for _, a := range j.atts {
+			if a.clean && a.shows(sigOrder) != nil {
+				return a.outcome
 			}
 		}
+		return j.atts[0].outcome
 	}
-	return out
+	for i := len(j.atts) - 1; i >= 0; i-- {
+		if j.atts[i].shows(sigOrder) == nil && j.atts[i].outcome != "" {
+			return j.atts[i].outcome
+		}
+	}
+	return j.atts[0].outcome
+}
+
+func (j *job) obsLine() string {
+	real := j.observation()
+	switch {
+	case len(j.pred.outs) == 1:
+		// well-separated scenario: the line is the real loop's own order of events
+		return obsLine([]string{real}, j.pred)
+	case contains(j.pred.outs, real):
+		return obsLine(j.pred.outs, j.pred)
+	default:
+		return obsLine(j.pred.outs, j.pred) + " real-outside-the-set=" + real
+	}
 }
 
 func Run(c *hx.Ctx) {
@@ -464,13 +749,12 @@ func Run(c *hx.Ctx) {
 				c.Hit("bad-op")
 				continue
 			}
-			ml, runs := modelLine(sc)
-			j := &job{scenario: scenario, ops: []string{resetLine, o.Raw}, sc: sc, runs: runs}
+			j := &job{scenario: scenario, ops: []string{resetLine, o.Raw}, sc: sc, pred: predict(sc)}
 			if scenario < 0 {
 				j.scenario, j.ops = 0, []string{o.Raw}
 			}
 			jobs = append(jobs, j)
-			lines = append(lines, line{out: ml, j: j})
+			lines = append(lines, line{j: j})
 			c.Hit("mode/" + sc.mode)
 			switch {
 			case sc.I < sc.B:
@@ -480,8 +764,10 @@ func Run(c *hx.Ctx) {
 			default:
 				c.Hit("ratio/idle>block")
 			}
-			if len(runs) > 1 {
-				c.Hit("select-tie")
+			if len(j.pred.outs) > 1 {
+				c.Hit("outcome/near-tie: real order must be a member of the admissible set")
+			} else {
+				c.Hit("outcome/separated: real order diffed as text")
 			}
 			for _, p := range sc.prods {
 				for _, off := range p.offs {
@@ -491,6 +777,7 @@ func Run(c *hx.Ctx) {
 						c.Hit("notify/waiting")
 					}
 				}
+				c.St.Hist["probe"] += len(p.probes)
 				if p.dur >= sc.B {
 					c.Hit("production/longer-than-block-interval")
 				}
@@ -510,37 +797,76 @@ func Run(c *hx.Ctx) {
 		go func(j *job) {
 			defer wg.Done()
 			defer func() { <-sem }()
-			j.findings = attempt(j)
+			j.atts = append(j.atts, attempt(j))
 		}(j)
 	}
 	wg.Wait()
-	// a scenario with a finding is re-run alone (scheduler noise filter): a signature is reported
-	// only when every attempt shows it
+	// a scenario with a finding is re-run alone until cleanNeeded attempts could be counted (noise ≤
+	// noiseCap; at most maxAttempts attempts): a signature is reported when showsNeeded counted
+	// attempts show it
 	for _, j := range jobs {
-		for a := 1; a < attempts && needsRetry(j.findings); a++ {
+		for j.needsMore() {
 			c.Hit("retry")
-			first := j.findings
-			j.findings = intersect(attempt(j), first)
-			for _, f := range first {
-				c.St.Notes = append(c.St.Notes, fmt.Sprintf("attempt %d of scenario %d: %s — %s", a, j.scenario, f.sig, f.what))
+			j.atts = append(j.atts, attempt(j))
+		}
+		for i, a := range j.atts {
+			if !a.clean {
+				c.Hit(fmt.Sprintf("attempt/noisy(>%.0fms): not counted", noiseCap))
+			} else {
+				c.Hit("attempt/counted")
+			}
+			for _, f := range a.fs {
+				if len(j.atts) > 1 {
+					c.St.Notes = append(c.St.Notes, fmt.Sprintf("attempt %d of scenario %d (noise %.0f ms): %s — %s", i+1, j.scenario, a.noise, f.sig, f.what))
+				}
 			}
 		}
-		if j.noise > 15 {
-			c.Hit("noisy-run(>15ms timer lateness)")
+		report := func(sig string) {
+			for _, pass := range []bool{true, false} { // prefer the text of a counted attempt
+				for _, a := range j.atts {
+					if f := a.shows(sig); f != nil && a.clean == pass {
+						c.St.Findings = append(c.St.Findings, hx.Finding{Signature: f.sig, What: f.what, Scenario: j.scenario, Ops: j.ops})
+						return
+					}
+				}
+			}
 		}
-		seen := map[string]bool{}
-		for _, f := range j.findings {
-			if seen[f.sig] {
+		for _, sig := range []string{sigKnownIdleShorter, sigKnownLongFlight} {
+			report(sig)
+		}
+		for _, sig := range j.sigs() {
+			if rep, _ := j.verdict(sig); rep {
+				report(sig)
 				continue
 			}
-			seen[f.sig] = true
-			c.St.Findings = append(c.St.Findings, hx.Finding{Signature: f.sig, What: f.what, Scenario: j.scenario, Ops: j.ops})
+			onlyNoisy := true
+			for _, a := range j.atts {
+				if a.clean && a.shows(sig) != nil {
+					onlyNoisy = false
+				}
+			}
+			if onlyNoisy {
+				c.Hit("unconfirmed/seen-in-noisy-attempts-only/" + sig)
+			} else {
+				c.Hit("unconfirmed/seen-in-one-counted-attempt/" + sig)
+			}
+		}
+		if obs := j.observation(); len(j.pred.outs) > 1 && contains(j.pred.outs, obs) {
+			for i, o := range j.pred.outs {
+				if o == obs {
+					c.Hit(fmt.Sprintf("near-tie/real-loop-took-admissible-outcome-#%d", i+1))
+				}
+			}
 		}
 	}
 	if c.St.Findings == nil {
 		c.St.Findings = []hx.Finding{} // "findings": [] rather than null in the stats file
 	}
 	for _, l := range lines {
-		c.Emit("%s", l.out)
+		if l.j != nil {
+			c.Emit("%s", l.j.obsLine())
+		} else {
+			c.Emit("%s", l.out)
+		}
 	}
 }
